@@ -582,40 +582,51 @@ func TestVerifC38Flood(t *testing.T) {
 	nTopo := mc.EnvInt("VERIF_C38_TOPOS", mc.Pick(5, len(c38Topos)))
 	topo0 := mc.EnvInt("VERIF_C38_TOPO0", 0)
 	maxMsgs := 2
-	maxDev := mc.EnvInt("VERIF_C38_DEV", mc.Pick(2, 3))
+	maxDev := mc.EnvInt("VERIF_C38_DEV", mc.Pick(1, 3))
 	// second message only on topologies with at most this many edges
 	twoMsgMaxEdges := mc.EnvInt("VERIF_C38_TWOMSG_EDGES", mc.Pick(3, 6))
+	twoMsgMaxNodes := mc.EnvInt("VERIF_C38_TWOMSG_NODES", mc.Pick(3, 4))
 	// per delivery: 0 deliver, 1 deliver and leave a duplicate in flight, 2 drop.
 	// A drop is the same as delaying the message beyond the end of the run as far
 	// as any node can tell, so it adds no (node state, message) pair; thorough only.
 	fates := mc.EnvInt("VERIF_C38_FATES", mc.Pick(2, 3))
+	// all (topology, role variant, first origin, second origin or none) as ONE
+	// first choice, so that shards balance
+	type config struct {
+		tp              c38Topo
+		variant, o1, o2 int
+	}
+	var configs []config
+	for _, tp := range c38Topos[topo0:nTopo] {
+		nVar := 3
+		if tp.line {
+			nVar = 4
+		}
+		for v := 0; v < nVar; v++ {
+			for o1 := 0; o1 < tp.n; o1++ {
+				configs = append(configs, config{tp, v, o1, -1})
+				if maxMsgs > 1 && len(tp.edges) <= twoMsgMaxEdges && tp.n <= twoMsgMaxNodes {
+					for o2 := 0; o2 < tp.n; o2++ {
+						configs = append(configs, config{tp, v, o1, o2})
+					}
+				}
+			}
+		}
+	}
 	var topoNames []string
 	for _, tp := range c38Topos[topo0:nTopo] {
 		topoNames = append(topoNames, tp.name)
 	}
 	mc.Run(t, mc.Config{ID: "C38", Name: "C38-flood-netsim", MaxDev: maxDev, Params: map[string]interface{}{
-		"topologies": topoNames, "variants": c38Variants, "messages": fmt.Sprintf("1..%d (second one only when edges<=%d), originated at any node, the second at any point of the run", maxMsgs, twoMsgMaxEdges),
+		"topologies": topoNames, "configurations": len(configs), "variants": c38Variants, "messages": fmt.Sprintf("1..%d (second one only when edges<=%d and nodes<=%d), originated at any node, the second at any point of the run", maxMsgs, twoMsgMaxEdges, twoMsgMaxNodes),
 		"per_delivery": []string{"deliver", "deliver and keep a network duplicate in flight (1 deviation)", "drop (1 deviation)"}[:fates], "max_deviations": maxDev,
 		"delivery_order": "every order of the distinct in-flight messages"}},
 		func(x *mc.X) {
 			orig := cache
 			defer func() { cache = orig }()
 
-			tp := c38Topos[topo0+x.Choose(nTopo-topo0)]
-			nVar := 3
-			if tp.line {
-				nVar = 4
-			}
-			variant := x.Choose(nVar)
-			origin1 := x.Choose(tp.n)
-			origin2 := -1
-			if maxMsgs > 1 && len(tp.edges) <= twoMsgMaxEdges {
-				// w.l.o.g. origin2 >= origin1: originating at two different nodes
-				// commutes, and the second message may be originated before any delivery
-				if c := x.Choose(tp.n - origin1 + 1); c < tp.n-origin1 {
-					origin2 = origin1 + c
-				}
-			}
+			cf := configs[x.Choose(len(configs))]
+			tp, variant, origin1, origin2 := cf.tp, cf.variant, cf.o1, cf.o2
 			x.Logf("topology %s, %s, first message from n%d, second from n%d", tp.name, c38Variants[variant], origin1, origin2)
 
 			gid := GenerateGID("verif-flood")
